@@ -17,8 +17,10 @@ number of pairs left in the stream, SyntaxError).
 
 from __future__ import annotations
 
+import hashlib
 import multiprocessing as mp
 import random
+import signal
 from functools import lru_cache
 
 from common import NCPU, Outcome, proof_coverage, proof_stage, run_driver, seed, use_repo
@@ -121,6 +123,17 @@ def make_parser(tbl: dict):
     return type("TableParser", (PrattParser,), ns)()
 
 
+CASE_TIMEOUT_S = 2.0
+
+
+class CaseTimeout(Exception):
+    pass
+
+
+def _on_alarm(signum, frame):
+    raise CaseTimeout
+
+
 def impl_run(parser, tokens):
     """-> (tree or None, pairs left in the stream, exception name or None)"""
     from pest.pairs import Pair, Pairs
@@ -128,12 +141,18 @@ def impl_run(parser, tokens):
 
     pairs = [Pair(n, 0, len(n), RuleFrame(n, 0)) for n in tokens]
     stream = Pairs(pairs).stream()
+    signal.signal(signal.SIGALRM, _on_alarm)
+    signal.setitimer(signal.ITIMER_REAL, CASE_TIMEOUT_S)       # a parse that does not return is a finding, not a hang
     try:
         tree = parser.parse_expr(stream)
     except SyntaxError:
         return None, len(pairs) - stream.pos, "SyntaxError"
+    except CaseTimeout:
+        return None, len(pairs) - stream.pos, f"no-return-within-{CASE_TIMEOUT_S:g}s"
     except Exception as e:  # noqa: BLE001
         return None, len(pairs) - stream.pos, type(e).__name__
+    finally:
+        signal.setitimer(signal.ITIMER_REAL, 0)
     return tree, len(pairs) - stream.pos, None
 
 
@@ -535,7 +554,7 @@ def _judge(cases, with_reference: bool):
     use_repo()
     lines, answers, problems, incons = [], [], [], []
     xr_lines, xr_expected = [], []
-    nontrivial = wf_count = 0
+    nontrivial = wf_count = timeouts = 0
     parser_cache: dict[str, object] = {}
     for tbl, toks, counted in cases:
         key = enc_table(tbl)
@@ -545,6 +564,10 @@ def _judge(cases, with_reference: bool):
         ans, problem, inc = direct_check(parser, tbl, toks)
         lines.append("X " + key + " " + " ".join(toks))
         answers.append(ans)
+        if ans.startswith("no-return"):
+            timeouts += 1
+            if timeouts >= 3:        # do not sit out thousands of timeouts; the finding is recorded
+                break
         if inc and len(incons) < 3:
             incons.append(inc)
         if problem and len(problems) < 5:
@@ -569,7 +592,7 @@ def _judge(cases, with_reference: bool):
         for ln, a, b in zip(xr_lines, xr_expected, xouts):
             if a != b and len(incons) < 3:
                 incons.append(f"Lean reference answers {b!r}, harness reference {a!r} on {ln}")
-    return {"n": len(cases), "wf": wf_count, "nontrivial": nontrivial, "problems": problems,
+    return {"n": len(lines), "wf": wf_count, "nontrivial": nontrivial, "problems": problems,
             "mism": mism[:5], "n_mism": len(mism), "incons": incons,
             "samples": [{"request": lines[i], "impl": answers[i]} for i in (len(lines) // 2, len(lines) - 1) if lines]}
 
@@ -616,7 +639,8 @@ def _random_job(args):
             cases.append((tbl, mutate(rng, tbl, toks), False))
     res = _judge(cases, with_reference=False)
     res["kind"] = "random"
-    res["keys"] = [hash((enc_table(t), tuple(s))) for t, s, _ in cases if well_formed(t, s) and n_ops(t, s) >= 2]
+    res["keys"] = [hashlib.blake2b((enc_table(t) + " " + " ".join(s)).encode(), digest_size=8).digest()
+                   for t, s, _ in cases if well_formed(t, s) and n_ops(t, s) >= 2]
     return res
 
 
@@ -632,7 +656,8 @@ def fails(tbl, toks) -> dict | None:
 def shrink(tbl, toks):
     """drop tokens (keeping the stream well formed and failing), then unused operators"""
     cur = list(toks)
-    changed = True
+    first = fails(tbl, cur)
+    changed = not (first and "no-return" in first["what"])      # every attempt would cost a timeout
     while changed:
         changed = False
         for width in (2, 1):
@@ -652,12 +677,43 @@ def shrink(tbl, toks):
     return tbl, cur
 
 
+def dec_table(s: str) -> dict:
+    tbl: dict = {"pre": {}, "post": {}, "inf": {}}
+    for sec in s.split(";"):
+        kind, _, body = sec.partition(":")
+        for e in filter(None, body.split(",")):
+            k, _, v = e.partition("=")
+            tbl[kind][k] = [int(v[:-1]), v[-1] == "R"] if kind == "inf" else int(v)
+    return tbl
+
+
 def replay(out: Outcome, payload: dict) -> None:
     use_repo()
+    out.coverage = {"explanation": "replay of one recorded finding", "evaluations": 1, "distinct_nontrivial": 2}
+    broken = payload.get("broken", "")
+    if broken.startswith("correspondence "):
+        # model and code disagreed on this request (no specification failure had been found)
+        line = broken[len("correspondence "):]
+        _, enc, *toks = line.split(" ")
+        tbl = dec_table(enc)
+        ans = impl_answer(*impl_run(make_parser(tbl), toks))
+        model = run_driver([line])[0]
+        out.coverage["samples"] = [{"request": line, "impl": ans, "model": model}]
+        problem = fails(tbl, toks)
+        if problem:
+            out.violation({"kind": "pratt", "table": tbl, "tokens": toks, **problem})
+        elif ans != model:
+            out.unproved({**payload, "model_answer": model, "code_answer": ans})
+        return
+    if broken.startswith("theorem "):
+        info = proof_stage(out, "C18", THEOREMS)
+        out.coverage = {**proof_coverage(info, "C18"), **out.coverage}
+        if info["broken"]:
+            out.unproved({"broken": "theorem " + "; ".join(info["broken"])[:1500]})
+        return
     tbl, toks = payload["table"], payload["tokens"]
     problem = fails(tbl, toks)
-    out.coverage = {"explanation": "replay of one (table, stream)", "evaluations": 1, "distinct_nontrivial": 2,
-                    "samples": [{"table": enc_table(tbl), "tokens": toks}]}
+    out.coverage["samples"] = [{"table": enc_table(tbl), "tokens": toks}]
     if problem:
         out.violation({**payload, **problem})
 
@@ -674,10 +730,10 @@ def run(out: Outcome) -> None:
         return
 
     maxlen = 9 if thorough else 7
-    n_tables = 40 if thorough else 120
-    tiny_len = 6 if thorough else 5
-    n_random = 60000 if thorough else 20000
-    max_units = 60 if thorough else 25
+    n_tables = 120
+    tiny_len = 7 if thorough else 5
+    n_random = 200000 if thorough else 20000
+    max_units = 80 if thorough else 25
 
     # the tables of the exhaustive part: the calculator example's, then seeded random ones
     tables: list[tuple[dict, bool]] = [({"pre": {"neg": 6}, "post": {"fac": 7},
@@ -710,7 +766,7 @@ def run(out: Outcome) -> None:
     corr: list[tuple] = []
     incons: list[str] = []
     samples: list[dict] = []
-    rkeys: set[int] = set()
+    rkeys: set[bytes] = set()
     with mp.Pool(NCPU) as pool:
         for res in pool.imap_unordered(_call, jobs):
             evals += res["n"]
@@ -799,6 +855,8 @@ def run(out: Outcome) -> None:
         "ties between adjacent operators of equal precedence but different kind (or different associativity) are resolved "
         "by the left operator: left-assoc infix keeps its right operand, right-assoc infix and prefix give it up "
         "(as in pest's Rust PrattParser); the property text does not fix this corner",
+        "precedences are non-negative integers, as in every use of the class (with the default min_prec=0 a negative "
+        "precedence is refused at top level by the very comparison that implements precedence)",
         "Python's recursion limit is not modelled (streams here nest at most a few hundred deep)",
     ]
 
